@@ -58,8 +58,14 @@ def run_shard(args):
     cases = []
     genkw = dict(genkw)
     probe_fixed = genkw.pop("probe_fixed", False)
+    cornered = genkw.pop("cornered", True)
     for i in range(n):
         spec = specgen.gen_safe_spec(rng, realsys.unit_info, **genkw)
+        if cornered and i % 3 == 1:
+            # no job shared between usage patterns, and the legal corners made certain (specgen.plant_corners)
+            sp2 = specgen.plant_corners(specgen.unshare_jobs(spec), rng)
+            if specgen.spec_is_safe(sp2, realsys.unit_info):
+                spec = sp2
         st, obs, rs = kcalc.real_outcome(spec)
         if probe_fixed and st == "ok" and rng.random() < 0.6:
             spec2 = probe_fixed_count(spec, obs, rng)
